@@ -1,4 +1,5 @@
 import AcraModel.Envelope.SafeExamples
+import AcraModel.Envelope.SafeBound
 import AcraModel.Crypto.ShimLaws
 /-!
 # C03 — any modification of a protected value is detected, never mis-decrypted
@@ -199,6 +200,26 @@ either that byte or one replacement). -/
 theorem scan_output_bound (cbs : List Callback) (B : Nat)
     (hc : ∀ cb ∈ cbs, ∀ x b, cb x = .replaced b → b.length ≤ B) (rest out : Bytes) (hit : Bool) :
     scan cbs rest = .ok out hit → out.length ≤ rest.length * max 1 B := scan_output_le cbs B hc rest out hit
+
+/-- **Reveal never grows a value** (laws of the real back end's algorithm: `SealLaws` + `SealLen`, both
+proved for the Shim; no commitment assumed): the plaintext is at least 44 bytes shorter than the input. -/
+theorem reveal_output_bound (c : CryptoOps) (hs : SealLaws c) (hl : SealLen c) (kv : KeyView) (d m : Bytes) :
+    reveal c kv d = .ok m → m.length + 44 ≤ d.length := process_length hs hl
+
+/-- **`OnColumn` with the decrypt callback never grows a value** (same laws): each replacement is
+shorter than the declared length of the container it replaces, so the output buffer – allocated
+with capacity `len(inBuffer)` in the Go code – never has to grow. -/
+theorem scan_decrypt_output_bound (c : CryptoOps) (hs : SealLaws c) (hl : SealLen c) (kv : KeyView)
+    (rest out : Bytes) (hit : Bool) :
+    scan [decryptCallback c kv] rest = .ok out hit → out.length ≤ rest.length := scan_decrypt_le hs hl kv rest out hit
+
+theorem onColumn_decrypt_output_bound (c : CryptoOps) (hs : SealLaws c) (hl : SealLen c) (kv : KeyView)
+    (d out : Bytes) (hit : Bool) :
+    onColumn [decryptCallback c kv] d = .ok out hit → out.length ≤ d.length := by
+  unfold onColumn
+  split
+  · intro h; cases h; exact Nat.le_refl _
+  · exact scan_decrypt_le hs hl kv d out hit
 
 /-! ## D. a damaged value is handed back unchanged -/
 
@@ -411,6 +432,8 @@ theorem scan_no_panic_needs_int_range : ∃ (cbs : List Callback) (rest : Bytes)
 the Shim (the algorithm the harness links Acra against) has the authenticity and length laws -/
 example : SealLaws boxOps ∧ SealCommit boxOps ∧ MsgLaws boxOps := ⟨Box.sealLaws, Box.sealCommit, Box.msgLaws⟩
 example : SealLaws shimOps ∧ MsgLaws shimOps := ⟨shim_sealLaws, shim_msgLaws⟩
+/-- the bundle of the output bounds in group C (no commitment there) -/
+example : SealLaws shimOps ∧ SealLen shimOps := ⟨shim_sealLaws, shim_sealLen⟩
 
 /-- decoders: both an error and a success occur (block family) -/
 example : extractBlock [] = .err ∧ extractBlock (exBlock ++ [1, 2]) = .ok (175, exBlock) := by decide
